@@ -19,7 +19,8 @@ THEOREMS = [
     'C07_cells_exact', 'C07_stockmeyer_block_exact', 'C07_mdfa_exact', 'C07_simplified_mdfa_exact',
     'C07_documented_bounds', 'C07_sum_n_bits_exact', 'C07_sum_n_bits_xaig_returns_upto64', 'C07_sum_n_bits_easy_exact',
     'C07_sum_pow2_m1_exact', 'C07_bit_counters_return_upto40',
-    'C07_sum_n_weighted_bits_exact', 'C07_sum_n_weighted_bits_naive_exact', 'C07_levels_pairwise_distinct',
+    'C07_weighted_documented_bounds', 'C07_sum_n_weighted_bits_exact', 'C07_sum_n_weighted_bits_naive_exact',
+    'C07_levels_pairwise_distinct', 'C07_weighted_documented_bound_refuted',
     'C07_weighted_xaig_size_small_vectors', 'C07_weighted_struct_pp_shapes_upto8',
     'C07_sum_two_numbers_exact', 'C07_sum_two_numbers_with_shift_exact',
     'C07_generate_sum_n_bits', 'C07_generate_sum_weighted_bits_efficient', 'C07_generate_sum_weighted_bits_naive',
@@ -30,12 +31,11 @@ PARTIAL = {
         'loops of the XAIG scheduler suffices (no Err OutOfFuel), and that m equals the number of binary digits of '
         'n, is established by kernel computation for n <= 64 on the bare circuit only',
     'C07_weighted_xaig_size_small_vectors':
-        'the documented XAIG bound gates <= 4.5 n - 2 m of add_sum_n_weighted_bits is established by kernel '
-        'computation for the enumerated family only (all weight vectors of length <= 6 over weights 0..3 and the '
-        'partial-product shapes (n, m) <= 8, bare circuit); for arbitrary weight vectors it is checked by the '
-        'direct oracle on every run, not proved. (All other documented bounds - 4.5 n - 2 m for add_sum_n_bits in '
-        'XAIG, 7 n - 3 m in AIG for add_sum_n_bits and both weighted sums, 5 n - 3 m for the naive weighted sum in '
-        'XAIG - are proved for all sizes and all hosts.)',
+        'an EXTRA fact, not part of the property: the tighter bound 4.5 n - 2 m (which the pinned docstring '
+        'claimed for all weight vectors and which C07_weighted_documented_bound_refuted shows to be false) does '
+        'hold, by kernel computation, on the enumerated family (all weight vectors of length <= 6 over weights '
+        '0..3, bare circuit). The documented bound after fixes/D27.patch, 5 n - 2 m, is proved for ALL weight '
+        'vectors and hosts in C07_sum_n_weighted_bits_exact',
     'C07_bit_counters_return_upto40':
         'the all-size theorems are conditional on the model run returning Ok; that the fuel of the modelled while '
         'loops suffices (no Err OutOfFuel) is computed for n <= 40, not proved for '
@@ -51,14 +51,14 @@ LEVEL_TEXT = ('every summation generator (add_sum_n_bits in both bases incl. the
               'Sem.Eval of the final circuit; levels of the weighted sums are proved strictly increasing; "only fresh '
               'gates, old gates keep their function" is proved once for every builder program; the set of gate types '
               'added is proved to lie in the RESOLVED basis (AIG: AND/OR/GT, XAIG: +XOR) for every spelling of the basis '
-              '(enum member or string in any letter case); gate-count bounds: 4.5n-2m (add_sum_n_bits XAIG, by a potential '
-              'argument over the MDFA/Stockmeyer schedule), 7n-3m (AIG) and 5n-3m (easy, naive XAIG) proved for all '
-              'sizes and hosts; 4.5n-2m for the efficient WEIGHTED sum in XAIG by kernel computation on an enumerated '
-              'family of weight vectors; the model is tied to /repo by regenerating the cells (translator T4) and by '
+              '(enum member or string in any letter case); ALL documented gate-count bounds are proved for all sizes and '
+              'hosts: 4.5n-2m (add_sum_n_bits XAIG) and 5n-2m (efficient weighted sum XAIG) by potential arguments over '
+              'the MDFA/Stockmeyer schedule, 7n-3m (AIG), 5n-3m (easy, naive XAIG); the bound 4.5n-2m that the pinned '
+              'docstring claimed for the weighted sum is REFUTED in the model and on the code (defect D27); the model is tied to /repo by regenerating the cells (translator T4) and by '
               'netlist-equality correspondence on every run')
 LEVEL_NOTE = ('Coq kernel + vm_compute; translators T1, T4; correspondence harness (order-preserving label renaming '
               'new_%032x -> new_%04x); theorems are conditional on the model run returning Ok; the model is of the '
-              'repaired code (fixes/D5, D6, D7); where Python would leave the weighted loop through the sentinel '
+              'repaired code (fixes/D5, D6, D7, D27; D27 corrects the documented bound, the oracle reads the bounds from the docstrings of the tree under test); where Python would leave the weighted loop through the sentinel '
               '`break` with a truncated result the model returns Err; add_sum_pow2_m1: the value clause asks that the '
               'empty string is not a gate label (filter(None, .) would drop such a label)')
 TECHNIQUE = ('Coq proof: generators as programs of a deep-embedded builder monad over the Circuit model; cells by '
